@@ -253,7 +253,7 @@ class C02(Check):
         cv, pu, pw = wn.get_link("cv"), wn.get_link("pu"), wn.get_link("pw")
         A = pu.get_head_curve_coefficients()[0]
         conds = dict(ccv=CT._CloseCVCondition(wn, cv), ocv=CT._OpenCVCondition(wn, cv), cpu=CT._CloseHeadPumpCondition(wn, pu),
-                     opu=CT._OpenHeadPumpCondition(wn, pu), cpw=CT._ClosePowerPumpCondition(wn, pw))
+                     opu=CT._OpenHeadPumpCondition(wn, pu), cpw=CT._ClosePowerPumpCondition(wn, pw), opw=CT._OpenPowerPumpCondition(wn, pw))
         batch = Batch()
         H, Q = 0.0001524, 2.83168e-6
         for _ in range(60 if ctx.quick else 400):
@@ -269,7 +269,9 @@ class C02(Check):
             l1 = "closecv %s %s %s" % (fr(a._head), fr(b._head), fr(q))
             b._head = hs + dh
             pu._flow = q
-            r2 = (bool(conds["cpu"].evaluate()), bool(conds["opu"].evaluate()), bool(conds["cpw"].evaluate()))
+            pw._flow = q
+            r2 = (bool(conds["cpu"].evaluate()), bool(conds["opu"].evaluate()))
+            r3 = (bool(conds["cpw"].evaluate()), bool(conds["opw"].evaluate()))
             l2 = "closepump %s %s %s %s" % (fr(A), fr(a._head), fr(b._head), fr(q))
 
             def cb1(o, r1=r1, hs=hs, dh=dh, q=q):
@@ -280,17 +282,26 @@ class C02(Check):
                     broken.append(Broken("correspondence", "_CloseCVCondition/_OpenCVCondition vs Lean closeCV/openCV",
                                          "hs-he=%r q=%r: impl (close,open)=%r model %r" % (dh, q, r1, m)))
 
-            def cb2(o, r2=r2, dh=dh, q=q):
+            def cb2(o, r2=r2, r3=r3, dh=dh, q=q):
                 m = [x == "T" for x in o.split()]
-                ctx.case(("cond-pump", r2), nontrivial=True)
+                ctx.case(("cond-pump", r2, r3), nontrivial=True)
                 ctx.count("cond:pump")
-                if (m[0], m[1], m[3]) != r2 and len(broken) < 4:
-                    broken.append(Broken("correspondence", "_Close/_OpenHeadPumpCondition, _ClosePowerPumpCondition vs Lean (repaired) conditions",
-                                         "he-hs=%r A=%r q=%r: impl (close,open,power close)=%r model %r (as coded close=%r)" % (dh, A, q, r2, (m[0], m[1], m[3]), m[2])))
+                if (m[0], m[1]) != r2 and len(broken) < 4:
+                    broken.append(Broken("correspondence", "_Close/_OpenHeadPumpCondition vs Lean (repaired) conditions",
+                                         "he-hs=%r A=%r q=%r: impl (close,open)=%r model %r (as coded close=%r)" % (dh, A, q, r2, (m[0], m[1]), m[2])))
+                # power pumps: the tree either has the conditions as coded (known finding power-pump-reverse-flow) or the proposed repair
+                self.pw_matches["as_coded"] &= (m[3], m[4]) == r3
+                self.pw_matches["repaired"] &= (m[5], m[6]) == r3
 
             batch.add(l1, cb1)
             batch.add(l2, cb2)
+        self.pw_matches = {"as_coded": True, "repaired": True}
         batch.run()
+        which = [k for k, v in self.pw_matches.items() if v]
+        ctx.cov["power_pump_conditions"] = which[0] if len(which) == 1 else ("ambiguous" if which else "neither")
+        if not which:
+            broken.append(Broken("correspondence", "_Close/_OpenPowerPumpCondition vs Lean conditions",
+                                 "the real conditions match neither the as-coded model (dh > 1e10 + Htol / dh <= 1e10 + Htol) nor the repaired one (+ flow < -Qtol / dh > Htol)"))
         return broken
 
     # ------------------------------------------------------------------ (c) pump smoothing coefficients
